@@ -34,6 +34,9 @@ pub enum ShaderRef {
     Gen { seed: u64, scale: u32 },
     /// Sources that are expected to be rejected (parse error, validation error, group numbering).
     Bad { which: u32 },
+    /// Deeply nested types (kind 0, 2) or deep call graphs (kind 1): many scheduling points
+    /// inside the recursive walkers of the generator.
+    Deep { shape: u8, depth: u32, variant: u32 },
     /// Literal source (used by minimised replay files).
     Inline { source: String },
 }
@@ -45,6 +48,7 @@ impl ShaderRef {
                 .unwrap_or_else(|_| "@fragment fn fs_main() {}".to_string()),
             ShaderRef::Gen { seed, scale } => gen_shader(*seed, *scale),
             ShaderRef::Bad { which } => bad_shader(*which),
+            ShaderRef::Deep { shape, depth, variant } => deep_shader(*shape, *depth, *variant),
             ShaderRef::Inline { source } => source.clone(),
         }
     }
@@ -54,6 +58,7 @@ impl ShaderRef {
             ShaderRef::Repo { path } => format!("repo:{}", path.rsplit('/').next().unwrap_or(path)),
             ShaderRef::Gen { seed, scale } => format!("gen:{seed:x}/{scale}"),
             ShaderRef::Bad { which } => format!("bad:{which}"),
+            ShaderRef::Deep { shape, depth, variant } => format!("deep:{shape}/{depth}/{variant}"),
             ShaderRef::Inline { source } => format!("inline:{}B", source.len()),
         }
     }
@@ -568,6 +573,43 @@ pub fn gen_shader(seed: u64, scale: u32) -> String {
         let _ = writeln!(out, "    wg_scratch[gid.x % 64u] = acc;\n}}");
     }
     out
+}
+
+pub fn deep_shader(kind: u8, depth: u32, variant: u32) -> String {
+    use crate::c20::{source, Family};
+    match kind % 3 {
+        0 => {
+            // a chain of structs, each holding the previous one: recursion depth = `depth`
+            let mut out = String::new();
+            let v = variant;
+            let _ = writeln!(out, "struct T{v}L0 {{\n    leaf: vec4<f32>,\n}}");
+            for level in 1..=depth {
+                let _ = writeln!(
+                    out,
+                    "struct T{v}L{level} {{\n    pad{level}: vec4<f32>,\n    inner: T{v}L{},\n}}",
+                    level - 1
+                );
+            }
+            let _ = writeln!(out, "@group(0) @binding(0) var<storage, read> deep{v}: T{v}L{depth};");
+            let _ = writeln!(out, "@group(0) @binding(1) var<uniform> shallow{v}: T{v}L{};", (variant % 3).min(depth));
+            let _ = writeln!(out, "@compute @workgroup_size(1)\nfn cs_main{v}() {{\n    let a = deep{v}.pad{depth}.x + shallow{v}.{}.x;\n}}",
+                if (variant % 3).min(depth) == 0 { "leaf".to_string() } else { format!("pad{}", (variant % 3).min(depth)) });
+            out
+        }
+        1 => source(&Family::Diamond {
+            depth,
+            fan: 2,
+            kind: 2,
+            placement: (variant % 6) as u8,
+            pure_helpers: variant % 2 == 1,
+        }),
+        _ => source(&Family::Types {
+            depth: depth.min(12),
+            members: 2,
+            globals: 1 + variant % 3,
+            arrays: variant % 2 == 0,
+        }),
+    }
 }
 
 /// Sources the library must reject (or accept) identically every time.
